@@ -248,6 +248,8 @@ pub fn eval_node<F: FnMut(&GraphColoredVertices, &str)>(
                         .intersect(&var_domain)
                         .is_empty()
                     {
+                        // the variable is no longer free (same clean-up as on the regular path below)
+                        eval_context.free_var_domains.remove(&var);
                         return match op.clone() {
                             HybridOp::Bind => graph.mk_empty_colored_vertices(),
                             HybridOp::Exists => graph.mk_empty_colored_vertices(),
